@@ -43,7 +43,9 @@ STUBBED = ["time: the clock is the count of cdd line events (sys.settrace), neve
 
 TOKENS = (":param x:", ":type x:", ":return:", ":rtype:", "Args:", "Returns:", "Parameters\n----------",
           "Returns\n-------", "x", "int", "`", "```", ":", "\n", "    ", " ", "(", ")", "Defaults to 5", ".",
-          "\t", " or ", " of ", ",", '"', "'", "-" * 32)
+          "\t", " or ", " of ", ",", '"', "'", "-" * 32,
+          # an entry whose name is missing (what is left of `:param x:` when the name is deleted)
+          ":param :")
 # tokens whose length-3 combinations get the full operation set in the exhaustive part (added after the first version
 # of the alphabet: a rule much longer than the header above it)
 HEAVY = ("-" * 32,)
